@@ -139,7 +139,8 @@ def oracle(version, defaults, items, cur, ops, err, user=None):
     user = dict(items) if user is None else user
     dmap = {n: (i, v) for n, i, v, _m in defaults}
     disabled = [n for n, v in items if v is None]
-    overrides = {n: v for n, v in items if v is not None and n in user}
+    # (what the caller passed, not what the version's schema made of it: "a user-supplied value is written exactly as given")
+    overrides = {n: (user[n] if isinstance(user.get(n), int) and not isinstance(user.get(n), bool) else v) for n, v in items if v is not None and n in user}
     injected = {n: v for n, v in items if v is not None and n not in user}
     if err is not None:
         outside = [n for n in disabled if n not in dmap]
@@ -284,6 +285,14 @@ def run(ctx, n=None):
         cases.append((version, {}, {}, set(), "ezsp"))
         cases.append((version, {}, {d[1]: d[2] for d in defaults}, set(), "sl"))
         cases.append((version, {}, {d[1]: d[2] - 1 for d in defaults}, {("c", d[1]) for d in defaults}, "ember"))
+        # every schema key overridden alone, with every value of a small grid the schema accepts: written exactly as given
+        for name in keys:
+            for val in (0, 1, 2, 3, 4, 5, 8, 9, 12, 16, 17, 20, 25, 26, 32, 64, 200, 255):
+                try:
+                    validated_items(version, {name: val})
+                except Exception:  # noqa: BLE001  (the schema does not take this value for this key)
+                    continue
+                cases.append((version, {name: val}, {}, set(), "ezsp"))
         for k in range(per):
             c = gen_case(ctx, version, keys, defaults)
             cases.append((version,) + c)
